@@ -365,7 +365,7 @@ def _finding_registered(sig):
 
 
 def cases(rng, tier):
-    n = {"quick": 72, "thorough": 3000, "search": 5000}.get(tier, 72)
+    n = {"quick": 72, "thorough": 2400, "search": 5000}.get(tier, 72)
     # deterministic block: every class in every part, every mode; the division tuples of the property text
     for mode in MODES:
         yield gen_case(rng, mode, divs=[3, 4], allclasses=True)
